@@ -51,6 +51,14 @@ func RoundTrip() {
 	encrypt := func(s *ae.Session) {
 		payload := vx.BytesUpTo("payload", P)
 		keep := append([]byte(nil), payload...)
+		// the caller's slice may sit inside a larger buffer (pooled / re-sliced buffers): spare capacity behind
+		// the payload belongs to the caller as well
+		var whole []byte
+		if vx.Choice("payload_has_spare_capacity", 2) == 1 {
+			whole = make([]byte, len(payload), len(payload)+48)
+			copy(whole, payload)
+			payload = whole
+		}
 		tick()
 		drr, err := s.Encrypt(env.Ctx, payload)
 		vx.Assert("C01.encrypt_ok", err == nil)
@@ -58,6 +66,14 @@ func RoundTrip() {
 			vx.Stop()
 		}
 		vx.Assert("C01.payload_unmodified", vx.BytesEq(payload, keep))
+		if whole != nil {
+			vx.Assert("C01.buffer_behind_payload_untouched", vx.AllZero(whole[len(payload):cap(whole)]))
+			// the caller reuses its buffer: records already handed out must not change with it
+			for i := range whole[:cap(whole)] {
+				whole[:cap(whole)][i] = 0xee
+			}
+			vx.Reach("C01.spare_capacity_payload")
+		}
 		recs = append(recs, rec{drr, keep})
 	}
 	check := func(s *ae.Session, r rec) {
